@@ -13,4 +13,12 @@ MUTANTS = {
     "c09-matches-search": (["C09"], "tinyflux/queries.py", "return re.match(regex, value, flags) is not None", "return re.search(regex, value, flags) is not None"),
     "c09-flags-dropped": (["C09"], "tinyflux/queries.py", "return re.search(regex, value, flags) is not None", "return re.search(regex, value) is not None"),
     "c09-noop-path": (["C09"], "tinyflux/queries.py", "            path_resolver=lambda x: x,\n            hashval=(),", "            path_resolver=lambda x: x[self._path[0]] if self._path else x,\n            hashval=(),"),
+    # ---- C17
+    "c17-hash-no-op": (["C17"], "tinyflux/queries.py", 'hashval=(self._point_attr, "<", self._path, rhs),', 'hashval=(self._point_attr, "<=", self._path, rhs),'),
+    "c17-or-tuple": (["C17"], "tinyflux/queries.py", 'hashval = ("or", frozenset([self._hash, other._hash]))', 'hashval = ("or", (self._hash, other._hash))', 2),
+    "c17-map-keeps-hash": (["C17"], "tinyflux/queries.py", "        query._hash = None\n\n        return query", "        query._hash = self._hash\n\n        return query"),
+    "c17-flags-dropped": (["C17"], "tinyflux/queries.py", 'hashval=(self._point_attr, "search", self._path, regex, flags),', 'hashval=(self._point_attr, "search", self._path, regex),'),
+    "c17-and-or-same-tag": (["C17"], "tinyflux/queries.py", 'hashval = ("or", frozenset([self._hash, other._hash]))', 'hashval = ("and", frozenset([self._hash, other._hash]))', 2),
+    "c17-test-args-dropped": (["C17"], "tinyflux/queries.py", 'hashval=(self._point_attr, "test", self._path, func, args),', 'hashval=(self._point_attr, "test", self._path, func),'),
+    "c17-attr-dropped": (["C17"], "tinyflux/queries.py", 'hashval=(self._point_attr, "exists", self._path),', 'hashval=("exists", self._path),', 2),
 }
